@@ -69,9 +69,23 @@ def validatePath (O : Oracle) (w : World) (refs : List Id) : PathVerdict :=
       else .ok
     else .ok
 
-/-- `ValidatePathForArea` on the feature found for a path ID of an area.
-`none` = panic (a point of the path cannot be resolved by `PointAt`). -/
+/-- `ValidateArea`'s check of one path (after fixes/C37-validate-area-unresolved-point.patch: the end
+points must resolve — an error, no longer a panic in `PointAt`) followed by `ValidatePathForArea`:
+at least three points, first and last at the same location. -/
 def pathForArea (w : World) (refs : List Id) : Option Bool :=
+  if refs.length < 3 then
+    -- the end points are looked up first: an unresolvable one is an error either way
+    some false
+  else
+  match refs.head?, refs.getLast? with
+  | some a, some b =>
+    match locOf w a, locOf w b with
+    | some x, some y => some (decide (x = y))
+    | _, _ => some false
+  | _, _ => some false
+
+/-- before that repair: `PointAt` panics (`none`) on an end point that cannot be resolved -/
+def pathForAreaOld (w : World) (refs : List Id) : Option Bool :=
   if refs.length < 3 then some false else
   match refs.head?, refs.getLast? with
   | some a, some b =>
@@ -80,8 +94,20 @@ def pathForArea (w : World) (refs : List Id) : Option Bool :=
     | _, _ => none
   | _, _ => some false
 
-/-- `ValidateArea`: every path ID resolves to a path that `ValidatePathForArea` accepts.
-`none` = panic. -/
+/-- `ValidateArea`: every path ID resolves to a path that passes; the loop returns at the first
+error. `none` = panic (`path.(b6.PhysicalFeature)` on a feature that is not physical). -/
+def validatePathsWith (pfa : World → List Id → Option Bool) (w : World) : List Id → Option Bool
+  | [] => some true
+  | pid :: rest =>
+    match find w pid with
+    | some ⟨_, .path refs⟩ =>
+      (match pfa w refs with
+       | none => none
+       | some false => some false
+       | some true => validatePathsWith pfa w rest)
+    | some _ => none
+    | none => some false
+
 def validatePaths (w : World) : List Id → Option Bool
   | [] => some true
   | pid :: rest =>
@@ -139,9 +165,28 @@ def finish (O : Oracle) (invert : Bool) (src : World) : Option World :=
   | none => none
   | some w1 => stage O invert isArea w1
 
-/-- before the repair: one pass over everything, then the deletions -/
-def finishOld (O : Oracle) (invert : Bool) (src : World) : Option World :=
-  stage O invert (fun _ => true) src
+/-- `ValidateFeature` before the two repairs (areas: `PointAt` may panic) -/
+def validateFeatureOld (O : Oracle) (invert : Bool) (w : World) (f : Feat) : Option (Bool × Feat) :=
+  match f.geo with
+  | .area polys =>
+    match validatePathsWith pathForAreaOld w polys.flatten with
+    | some b => some (b, f)
+    | none => none
+  | _ => validateFeature O invert w f
+
+def stageOld (O : Oracle) (invert : Bool) (ctx : World) : World → Option World
+  | [] => some []
+  | f :: l =>
+    match stageOld O invert ctx l with
+    | none => none
+    | some rest =>
+      match validateFeatureOld O invert ctx f with
+      | none => none
+      | some (true, f') => some (f' :: rest)
+      | some (false, _) => some rest
+
+/-- before the repairs: one pass over everything, then the deletions -/
+def finishOld (O : Oracle) (invert : Bool) (src : World) : Option World := stageOld O invert src src
 
 /-- what inverting a clockwise loop is supposed to achieve, for the closed paths of `src`: the reversed
 path is a valid counter-clockwise loop. S2 breaks this for degenerate loops (two points of the path
